@@ -105,4 +105,33 @@ def Wallet.subkey (g : Gen) (w : Wallet) (path : List Char) : Except Err Wallet 
           | .error e => .error (.curve e)
           | .ok p => mkWallet g (.publicPair p)
 
+/-- `ElectrumWallet.__init__` with any number of the four arguments given: exactly one must be -/
+def mkWalletArgs (g : Gen) : List Arg → Except Err Wallet
+  | [a] => mkWallet g a
+  | _ => .error .value
+
+/-- `serialize()`: `if self._secret_exponent:` (truthiness) the 32 bytes of the exponent, else the master public key -/
+def Wallet.serialize (w : Wallet) : Except Err Bytes :=
+  match w.secretExponent with
+  | some k => if k ≠ 0 then toBytes32 k else w.masterPublicKey
+  | none => w.masterPublicKey
+
+/-- `ElectrumWallet.deserialize(blob)`: 32 bytes are a master private key, 64 a master public key, anything else `None` -/
+def deserialize (g : Gen) (blob : Bytes) : Except Err (Option Wallet) :=
+  if blob.length = 32 then
+    match mkWallet g (.masterPrivateKey (fromBytes32 blob)) with
+    | .error e => .error e
+    | .ok w => .ok (some w)
+  else if blob.length = 64 then
+    match mkWallet g (.masterPublicKey blob) with
+    | .error e => .error e
+    | .ok w => .ok (some w)
+  else .ok none
+
+/-- `subkeys(path)`: one `subkey` per element of `subpaths_for_path_range(path, "'pH")` -/
+def Wallet.subkeys (g : Gen) (w : Wallet) (pathRange : List Char) : Except Err (List Wallet) :=
+  match Subpaths.subpathsForPathRange pathRange ['\'', 'p', 'H'] with
+  | .error e => liftS (.error e)
+  | .ok paths => mapMExcept (w.subkey g) paths
+
 end Pycoin.Electrum
